@@ -21,6 +21,7 @@ int sim_dup(int fd);
 void *sim_mmap(void *addr, size_t len, int prot, int flags, int fd, off_t off);
 int sim_munmap(void *addr, size_t len);
 int sim_mkstemp(char *tmpl);
+int sim_mkostemp(char *tmpl, int flags);
 int sim_unlink(const char *path);
 int sim_clock_gettime(clockid_t, struct timespec *);
 
